@@ -86,10 +86,10 @@ def showOpt : Option Name → String
 
 def showRec (r : Rec) : String :=
   ",".intercalate [toString r.depth, encCps r.url, if r.found then "1" else "0", showOpt r.parentArg,
-    toString r.enctype, encCps r.used, encCps r.text, showOpt r.ownCharset, encCps r.reported]
+    toString r.enctype, encCps r.used, encCps r.text, encCps r.reported]
 
 def showParsed (p : Parsed) : String :=
-  "OK enc=" ++ encCps p.encoding ++ " own=" ++ showOpt p.ownCharset ++ " text=" ++ encCps p.text ++
+  "OK enc=" ++ encCps p.encoding ++ " text=" ++ encCps p.text ++
   " log=" ++ ",".intercalate (p.out.log.map encCps) ++ " recs=" ++ "|".intercalate (p.out.recs.map showRec)
 
 def showItem : Item → String
